@@ -11,7 +11,7 @@
    or unrelated to it; svc_ok = TTLs in range (0 < other_ttl < 2^32). *)
 From ZC Require Import Model.Base Model.PyRec Model.Dict Model.Cache Model.Ingest Model.Respond Model.Register Model.Node Model.Link
   Model.Query Model.Info Gen.Const Gen.DnsPure Spec.CacheSpec Spec.AnswerSpec
-  Proofs.C07_recv Proofs.C07_send Proofs.C07_net Proofs.C07_lookup Proofs.C07_link.
+  Model.Sched Model.Browser Proofs.C04_defs Proofs.C07_recv Proofs.C07_send Proofs.C07_net Proofs.C07_lookup Proofs.C07_link Proofs.C07_browser.
 
 (* of three copies with at most one lost, two arrive - each within 100 ms of being sent *)
 Theorem C07_one_loss_two_arrive : forall m1 m2 m3 f1 f2 f3, fate_ok f1 -> fate_ok f2 -> fate_ok f3 -> (losses [f1; f2; f3] <= 1)%nat ->
@@ -65,6 +65,31 @@ Theorem C07_lookup_batch_order : forall c1 now r news srv adr h,
   (length (p_address adr) = 16%nat -> In (p_address adr) (si_v6 i')).
 Proof. exact batch_order_irrelevant. Qed.
 
+(* END TO END, sender task -> lossy link -> receiving cache -> browser callbacks: whatever the announcement task of a live node puts on the
+   wire, delivered with any delays, duplicates and order and with any single copy lost, makes a browser of that type (types pairwise
+   distinct, the type's name matching no other browsed type) report the instance Added - and after the goodbye task (not overlapping the
+   announcements, one loss among the six messages) it is no longer reported *)
+Theorem C07_announcement_to_callbacks : forall nd id types sch s a fates,
+  n_done nd = false -> d_get Z.eqb (n_tasks nd) id = Some (announce_task s) ->
+  types_distinct types -> In (s_type s) types -> name_ok types (s_type s) -> svc_ok s ->
+  length fates = 3%nat -> Forall fate_ok fates -> (losses fates <= 1)%nat ->
+  let sent := wmsgs_of (concat (nrun nd [LBcast id a; LBcast id (a + 225); LBcast id (a + 450)])) in
+  exists n cbs, brun (bnode_init types sch) (labels_of (deliveries sent fates)) = Some (n, cbs) /\
+                In (lower (s_name s)) (live_after cbs (s_type s)).
+Proof. exact announcement_task_to_callbacks. Qed.
+
+Theorem C07_goodbye_to_callbacks : forall nd id nd' id' types sch s a g b fates,
+  n_done nd = false -> d_get Z.eqb (n_tasks nd) id = Some (announce_task s) ->
+  n_done nd' = false -> d_get Z.eqb (n_tasks nd') id' = Some (goodbye_task s b) ->
+  types_distinct types -> In (s_type s) types -> name_ok types (s_type s) -> svc_ok s ->
+  a + 450 + 100 < g ->
+  length fates = 6%nat -> Forall fate_ok fates -> (losses fates <= 1)%nat ->
+  let sent := wmsgs_of (concat (nrun nd [LBcast id a; LBcast id (a + 225); LBcast id (a + 450)]))
+              ++ wmsgs_of (concat (nrun nd' [LBcast id' g; LBcast id' (g + 125); LBcast id' (g + 250)])) in
+  exists n cbs, brun (bnode_init types sch) (labels_of (deliveries sent fates)) = Some (n, cbs) /\
+                ~ In (lower (s_name s)) (live_after cbs (s_type s)).
+Proof. exact goodbye_task_to_callbacks. Qed.
+
 (* the recorded finding C07-withdrawal-during-broadcast as a refutation of the statement without the no-overlap hypothesis: unregistered
    50 ms after the first announcement, one copy lost, every other hypothesis met - the instance stays known for its whole TTL *)
 Example C07_overlap_refuted :
@@ -84,4 +109,4 @@ Proof. exact packet_order_fails. Qed.
 Print Assumptions C07_one_loss_two_arrive. Print Assumptions C07_last_arrival_wins. Print Assumptions C07_sender.
 Print Assumptions C07_announcements_converge. Print Assumptions C07_withdrawal_converges. Print Assumptions C07_close_converges.
 Print Assumptions C07_receiver_hypothesis_reachable. Print Assumptions C07_lookup_batch_order. Print Assumptions C07_overlap_refuted.
-Print Assumptions C07_packet_order_refuted.
+Print Assumptions C07_packet_order_refuted. Print Assumptions C07_announcement_to_callbacks. Print Assumptions C07_goodbye_to_callbacks.
